@@ -118,7 +118,7 @@ impl Kanata {
 //@@ wrap impl Kanata
 //@@ macro-stmt R13 bail => `return Err(verif_bail());`
 //@@ resub R25 1 /\*MAPPED_KEYS\.lock\(\) = ([^;]*);/ => `self.verif_set_mapped_keys(\1);`
-//@@ resub R18 + /self\.layout\.bm\(\)/ => `self.layout.verif_b()`
+//@@ resub R18 * /self\.layout\.bm\(\)/ => `self.layout.verif_b()`
 //@@ sig Rtx `_tx: &Option<Sender<ServerMessage>>` => `_tx: &Option<u8>`
 //@@ ret r
 //@@ spec
